@@ -5,9 +5,10 @@
    Models: Model/Bloch.v (bond sums with FORMAL phases w = e^{ik} over any commutative ring; parallel edges
    ACCUMULATE, as in the code after fix b8fbd8d), Model/Tiling.v (tile_unit_cell over the helpers GENERATED
    from example_graphs.py).  NOT covered by a theorem (numerical, checked by S on the implementation,
-   harness/c08.py): LAPACK's eigvalsh and float exp; and the standard step from the intertwining relation to
-   equality of spectra (the nx*ny Bloch-wave blocks Phi_k for the nx*ny pairs of roots of unity form an
-   invertible Vandermonde (x) identity matrix, so A_tiled is similar to the direct sum of the H(k)). *)
+   harness/c08.py): LAPACK's eigvalsh and float exp.  (The step from the intertwining relation to equality of
+   spectra — formerly listed here — is now PROVED at the end of this file over any field with primitive roots
+   of unity and nx*ny invertible: C08_bloch_invertible, C08_bloch_similar, C08_bloch_complete
+   (char_poly A_tiled = prod_k char_poly H(k)), C08_bloch_spectrum_union.) *)
 From Coq Require Import List ZArith Bool Arith QArith Qabs Ring.
 From Koala Require Import Gen.TilingGen Model.Lattice Model.Tiling Model.Examples Model.Bloch
      Proofs.TilingFacts Proofs.BlochFacts.
